@@ -47,7 +47,7 @@ def encodeTok (b : Bytes) : String := "x" ++ encode b
 
 end Hex
 
-def strBytes (s : String) : Bytes := s.toUTF8.toList
+def strBytes (s : String) : Bytes := s.toUTF8.data.toList
 
 /-- Render bytes as text when they are printable ASCII, for driver output of
 identifiers; otherwise hex. -/
